@@ -8,13 +8,14 @@ design = open(V + '/DESIGN.md').read()
 m = re.search(r"\| seeded change \| what it does \| caught by \|\n\|---\|---\|---\|\n((?:\|.*\|\n)+)", design)
 old_rows = {}
 marks = {}
-for line in m.group(1).splitlines():
+import subprocess
+committed = subprocess.run(['git', '-C', V, 'show', 'HEAD:DESIGN.md'], capture_output=True, text=True).stdout
+m0 = re.search(r"\| seeded change \| what it does \| caught by \|\n\|---\|---\|---\|\n((?:\|.*\|\n)+)", committed)
+for line in (m0.group(1) if m0 else '').splitlines() + m.group(1).splitlines():
     cells = [c.strip() for c in line.strip().strip('|').split('|')]
     if len(cells) >= 3:
         old_rows[cells[0]] = cells[1]
-        marks[cells[0]] = '¹' if '¹' in cells[2] else ''
-        if '²' in cells[2]:
-            marks[cells[0]] += ' ²'
+        marks[cells[0]] = ('¹' if ('¹' in cells[2] or '¹' in marks.get(cells[0], '')) else '') + (' ²' if ('²' in cells[2] or '²' in marks.get(cells[0], '')) else '')
 rows = []
 for name in sorted(res):
     r = res[name]
@@ -29,10 +30,12 @@ for name in sorted(res):
     else:
         parts = []
         for p in sorted(cb, key=lambda p: (p != own, p)):
-            rules = sorted({k.split('/')[0] for k in cb[p]})
+            rules = sorted({k.split('/')[0] for k in cb[p] if not k.startswith('fail-closed')}) or ['fail-closed']
             s = '**%s** %s' % (p, ', '.join(rules)) if p == own else '%s %s' % (p, ', '.join(rules))
-            if p == own and (marks.get(name) or meta.get('rule_added_after')):
-                s += ' ¹' if '¹' in (marks.get(name) or '¹' if meta.get('rule_added_after') else '') else ''
+            if p == own and ('¹' in marks.get(name, '') or meta.get('rule_added_after')):
+                s += ' ¹'
+            if p == own and '²' in marks.get(name, ''):
+                s += ' ²'
             parts.append(s)
         caught = ', '.join(parts)
     rows.append('| %s | %s | %s |' % (name, desc.replace('|', '/'), caught))
